@@ -367,7 +367,95 @@ def _consts(t):
     return out
 
 
-TASKS = [h_spec_id_inspect_equals_trace, h_rscf, h_create_launch, h_run_loop]
+HasSrc = z3.Function("BlockHasReadableSource", I_, core.B)
+Count = z3.Function("SourcesBefore", I_, I_)
+UriOf = z3.Function("UriOfSource", V, V)
+FPOf = z3.Function("FingerprintOf", V, I_)
+
+
+class FpSpec(PureLibMixin, BaseSpec):
+    def __init__(self):
+        super().__init__(PROP)
+        self.inline |= {(IDENT, "RunSpaceIdentityService._fingerprints")}
+        self.skolem_goals = True
+        self.assumptions |= {"_fingerprint_source(source) returns (None, '', None) when the source has no string path and (uri, digest, size) of the file otherwise (file system: bounded tier only)"}
+
+    def call_override(self, I, f, args, kwargs, star):
+        fn = f.func if isinstance(f, O.HBound) else f
+        if isinstance(fn, O.HFunc) and fn.node.name == "_fingerprint_source":
+            src = I.lift(args[-2])
+            u = UriOf(src)
+            I.st.assume(z3.Or(u == NONE, V.is_str(u)))
+            return vtup([u, vstr(fresh("digest", z3.StringSort())), vint(fresh("size", I_))])
+        return MISSING
+
+    def instantiate_override(self, I, ci, args, kwargs, star):
+        if ci.name == "Fingerprint":
+            return V.obj(FPOf(I.lift(kwargs["uri"])))
+        return MISSING
+
+    def ext_call(self, I, dotted, args, kwargs, star):
+        if dotted == "pathlib.Path":
+            return V.obj(fresh("path", I_))
+        return super().ext_call(I, dotted, args, kwargs, star)
+
+
+def h_fingerprints(spec):
+    """_fingerprints: every block with a readable source contributes exactly one fingerprint, in block order, wherever it stands
+    in the list; nothing else is recorded (loop invariant over a counting function of the blocks seen)"""
+    s2 = FpSpec()
+    s2.obligations, s2._seen, s2.undecided, s2.functions, s2.used_contracts = spec.obligations, spec._seen, spec.undecided, spec.functions, spec.used_contracts
+    fn_info(s2, IDENT, "RunSpaceIdentityService._fingerprints")
+
+    def body(I):
+        st = I.st
+        ci, f = E.method_of(I, IDENT, "RunSpaceIdentityService", "_fingerprints")
+        svc = st.new_inst(ci)
+        sp = in_dict(I, "run_space_spec")
+        blocks = in_list(I, "blocks")
+        st.assume(z3.Select(ddom(st.h, sp), vstr("blocks")))
+        st.assume(z3.Select(dval(st.h, sp), vstr("blocks")) == blocks)
+        n = z3.Select(st.h.llen, V.id(blocks))
+        st.assume(n >= 1)
+        hs = st.h.copy()
+        blk = lambda j: z3.Select(z3.Select(hs.larr, V.id(blocks)), j)
+        is_dict = lambda v, h=hs: z3.And(V.is_ref(v), z3.Select(h.kind, V.id(v)) == K_DICT)
+        srcv = lambda j: z3.If(z3.Select(ddom(hs, blk(j)), vstr("source")), z3.Select(dval(hs, blk(j)), vstr("source")), NONE)
+        defn = lambda j: HasSrc(j) == z3.And(is_dict(blk(j)), is_dict(srcv(j)), UriOf(srcv(j)) != NONE)
+        wf = lambda j: z3.And(z3.Implies(V.is_ref(blk(j)), V.id(blk(j)) <= 0), z3.Implies(V.is_ref(srcv(j)), V.id(srcv(j)) <= 0))
+        j = z3.Int("j!fp")
+        st.assume(z3.ForAll([j], z3.Implies(z3.And(j >= 0, j < n), z3.And(defn(j), wf(j)))))
+        st.list_instantiators.append(lambda lid, idx: z3.Implies(z3.And(idx >= 0, idx < n), z3.And(defn(idx), wf(idx))))
+        st.assume(Count(0) == 0)
+        st.assume(z3.ForAll([j], z3.Implies(j >= 0, Count(j + 1) == Count(j) + z3.If(HasSrc(j), 1, 0)), patterns=[Count(j + 1)]))
+        st.assume(z3.ForAll([j], z3.Implies(j >= 0, Count(j) >= 0), patterns=[Count(j)]))
+        a_, b_ = z3.Int("a!mono"), z3.Int("b!mono")
+        # lemma about the spec function (induction on b - a; stated, not re-proved): the count is monotone
+        st.assume(z3.ForAll([a_, b_], z3.Implies(z3.And(a_ >= 0, a_ <= b_), Count(a_) <= Count(b_)), patterns=[z3.MultiPattern(Count(a_), Count(b_))]))
+        s2.assumptions.add("SourcesBefore (the counting spec function of _fingerprints' invariant) is monotone - a lemma by induction, stated as an axiom")
+
+        def inv(c):
+            Eq = c.st.list_sq(c.var("entries"))
+            jj = z3.Int("j!inv")
+            return z3.And(Eq.n == Count(c.i), Count(c.i + 1) == Count(c.i) + z3.If(HasSrc(c.i), 1, 0),
+                          z3.ForAll([jj], z3.Implies(z3.And(jj >= 0, jj < c.i, HasSrc(jj)), Eq.at(Count(jj)) == V.obj(FPOf(UriOf(srcv(jj)))))))
+        s2.loops.clear()
+        s2.loop(IDENT, "RunSpaceIdentityService._fingerprints", 1, LoopSpec(inv, modifies_heap=True, frame_except=lambda c: [c.var("entries")]))
+        out = E.execute(I, f, [svc, sp, NONE])
+        if out[0] != "return":
+            s2.oblige(I, "_fingerprints/never-raises(file-access-abstract)", z3.BoolVal(False), meta={"exc": repr(out[1])})
+            return
+        Eq = st.list_sq(out[1])
+        s2.oblige(I, "_fingerprints/one-entry-per-block-with-a-readable-source(wherever-it-stands)", Eq.n == Count(n), meta={"witness": "fingerprints"}, hints=[n])
+        k = fresh("any_block", I_)
+        s2.oblige(I, "_fingerprints/entries-are-the-sources'-fingerprints-in-block-order",
+                  z3.Implies(z3.And(k >= 0, k < n, HasSrc(k)), Eq.at(Count(k)) == V.obj(FPOf(UriOf(srcv(k))))), meta={"witness": "fingerprints"}, hints=[k])
+    E.run_function(s2, "_fingerprints", body)
+    spec.path_count += s2.path_count
+    spec.assumptions |= s2.assumptions
+
+
+TASKS = [h_spec_id_inspect_equals_trace, h_rscf, h_create_launch, h_fingerprints, h_run_loop]
 
 
 def factory():
